@@ -1284,8 +1284,12 @@ pub fn oracle(c: &Case, ctx: &mut Ctx) -> CaseResult {
 			};
 			// (f) only the originator's key material and nonce can produce a static invoice for the offer
 			evals += 2;
-			vensure!(mk(&offer, &other_ek, nonce(&c.nonce_o)).is_err(), "f:foreign-material-accepted", "static invoice built with another node's key");
-			vensure!(mk(&offer, &r_ek, nonce_x).is_err(), "f:foreign-material-accepted", "static invoice built with another nonce");
+			if mk(&offer, &other_ek, nonce(&c.nonce_o)).is_ok() {
+				return Err(Failure::new("f:foreign-material-accepted", "static invoice built for the offer with another node's key material").with_key("b12/meta/static-other-key"));
+			}
+			if mk(&offer, &r_ek, nonce_x).is_ok() {
+				return Err(Failure::new("f:foreign-material-accepted", "static invoice built for the offer with another nonce").with_key("b12/meta/static-other-nonce"));
+			}
 			for a in c.offer_alter.iter() {
 				let Some(alt) = apply_alter(&orecs, a) else { continue };
 				let Ok(aoffer) = Offer::try_from(rc::tlv_serialize(&alt)) else { continue };
@@ -1371,6 +1375,27 @@ fn check_invoice(c: &Case, invoice: &Bolt12Invoice, inv: &InvSpec, ctx: &mut Ctx
 		eq!(what, "payer_metadata", i.payer_metadata().to_vec(), invoice.payer_metadata().to_vec());
 		eq!(what, "fallbacks(built=parsed)", i.fallbacks(), invoice.fallbacks());
 		eq!(what, "offer_id", i.offer_id().map(|x| x.0), invoice.offer_id().map(|x| x.0));
+	}
+	// An invoice for an offer must be signed by the offer's issuer key (or the final hop of one of its
+	// paths): swapping invoice_node_id for another key and re-signing with that key - a perfectly valid
+	// BIP-340 signature over the reference merkle root - must not parse.
+	if invoice.is_for_offer() {
+		let attacker = (c.r_node & 63) ^ 1 ^ ((c.other_ek & 31) << 1);
+		let mut recs: Vec<rc::Tlv> = rc::tlv_parse(&ib).expect("tlv").into_iter().filter(|r| r.typ != 240).collect();
+		if let Some(r) = recs.iter_mut().find(|r| r.typ == 176) {
+			r.value = key(attacker).1.serialize().to_vec();
+		}
+		if key(attacker).1 != invoice.signing_pubkey() {
+			let digest = rc::b12_sig_digest("invoice", rc::b12_merkle_root(&recs).expect("root"));
+			let sig = pool().secp.sign_schnorr_no_aux_rand(&bitcoin::secp256k1::Message::from_digest(digest), &keypair(attacker));
+			let at = recs.iter().position(|r| r.typ > 240).unwrap_or(recs.len());
+			recs.insert(at, rc::Tlv { typ: 240, value: sig.as_ref().to_vec() });
+			*evals += 1;
+			if Bolt12Invoice::try_from(rc::tlv_serialize(&recs)).is_ok() {
+				return Err(Failure::new("e:resigned-by-other-key", format!("an invoice for an offer re-signed under another node id parses: {}", hex(&rc::tlv_serialize(&recs)))).with_key("b12/forged/invoice-node-id-replaced"));
+			}
+			ctx.label("e:invoice re-signed under another node id rejected");
+		}
 	}
 	tamper_signed(c, Kind::Invoice, &ib, root, ctx, evals, in_signed)
 }
